@@ -6,6 +6,7 @@
 import PCV.Model.Wire
 import PCV.Model.DrvUtil
 import PCV.Model.Sonic
+import PCV.Model.SonicLC
 namespace PCV
 namespace DrvSonic
 open Driver Sonic
@@ -66,6 +67,24 @@ def getEvals (r : Req) : R (List ((Label × Fp p) × Fp p)) := do
   let pts ← asFes (← need r "epoints")
   let vs ← asFes (← need r "evals")
   pure <| (el.zip (pts.zip vs)).map fun (l, (z, v)) => ((l, z), v)
+
+def asNatss (v : Val) : R (List (List Nat)) := do let xs ← asList v; xs.mapM asNats
+def asLabelss (v : Val) : R (List (List Label)) := do let xs ← asList v; xs.mapM asLabels
+
+/-- linear combinations: `lclabels`, `lccoeffs`, `lcone` (1 = constant term), `lcterms` (label bytes) -/
+def getLCs (r : Req) : R (List (LC.LinComb (Fp p))) := do
+  let labels ← asLabels (← need r "lclabels")
+  let coeffs ← asFess (← need r "lccoeffs")
+  let ones ← asNatss (← need r "lcone")
+  let terms ← asLabelss (← need r "lcterms")
+  pure <| (labels.zip (coeffs.zip (ones.zip terms))).map fun (l, (cs, (os, ts))) =>
+    ⟨l, (cs.zip (os.zip ts)).map fun (c, (o, t)) => (c, if o != 0 then LC.LCTerm.one else LC.LCTerm.poly t)⟩
+
+/-- the outcome class of a call as label bytes: `answered` or the model's error name
+(the C06 policy errors are compared by kind) -/
+def kindReply {α} (x : Except Err α) : String :=
+  let name := match x with | .ok _ => "answered" | .error e => e.name
+  okReply [("kind", vNats (name.toUTF8.toList.map (·.toNat)))]
 
 /-- optional overrides of verifier-key elements (C10's key mutations) -/
 def overrideVK (r : Req) (vk : VK (Fp p)) : R (VK (Fp p)) := do
@@ -149,7 +168,43 @@ def handle (p : Nat) (r : Req) : Option (Except String String) :=
     let πs ← getProofs (p := p) r
     let ξs ← asFes (← need r "xis")
     let rs ← asFes (← need r "rs")
-    pure <| exceptReply (batchCheck vk comms qs evals πs ξs rs) fun b => [("b", vBool b)]
+    pure <| exceptReply (batchCheck vk comms qs evals πs ξs rs) fun b =>
+      [("b", vBool b), ("used", .n (match batchCheckT vk comms qs evals πs ξs rs with
+        | .ok (_, rest) => ξs.length - rest.length | .error _ => 0))]
+  | "sonic.open_combinations" | "sonic.open_combinations_kind" =>
+    let polys ← getPolys (p := p) r
+    let rands ← asFess (← need r "rands")
+    let comms ← getComms (p := p) r
+    let lcs ← getLCs (p := p) r
+    let qs ← getQueries (p := p) r
+    let ξs ← asFes (← need r "xis")
+    let res := openCombinations ck polys rands comms lcs qs ξs
+    if r.op == "sonic.open_combinations_kind" then pure (kindReply res) else
+    -- the combined commitments are reported next to the proofs
+    let lcc : List (LComm (Fp p)) := match combineAll (labelMap polys rands comms) lcs with
+      | .ok ts => ts.map fun (t : Trip (Fp p)) => t.2.2
+      | .error _ => []
+    pure <| exceptReply res fun (πs, rest) =>
+      vProofs πs ++ [("used", .n (ξs.length - rest.length)), ("lccs", vFes (lcc.map (·.comm))),
+        ("lcbounds", .l (lcc.map fun c => match c.bound with | none => .none | some d => .some (.n d)))]
+  | "sonic.check_combinations" | "sonic.check_combinations_kind" =>
+    let comms ← getComms (p := p) r
+    let lcs ← getLCs (p := p) r
+    let qs ← getQueries (p := p) r
+    let evals ← getEvals (p := p) r
+    let πs ← getProofs (p := p) r
+    let ξs ← asFes (← need r "xis")
+    let rs ← asFes (← need r "rs")
+    let res := checkCombinations vk comms lcs qs evals πs ξs rs
+    if r.op == "sonic.check_combinations_kind" then pure (kindReply res) else
+    let lcc : List (LComm (Fp p)) := match combineAllV comms lcs evals with
+      | .ok (cs, _) => cs
+      | .error _ => []
+    pure <| exceptReply res fun b =>
+      [("b", vBool b), ("used", .n (match checkCombinationsT vk comms lcs qs evals πs ξs rs with
+        | .ok (_, rest) => ξs.length - rest.length | .error _ => 0)),
+       ("lccs", vFes (lcc.map (·.comm))),
+       ("lcbounds", .l (lcc.map fun c => match c.bound with | none => .none | some d => .some (.n d)))]
   | _ => .error "unknown-op"
 
 end DrvSonic
